@@ -142,14 +142,14 @@ impl<T: Ord + Copy> Graph<T> for StaticGraph<T> {
     }
 
     fn find_edge(&self, s: NodeID, t: NodeID) -> Option<EdgeID> {
-        if s > self.number_of_nodes() {
+        if s >= self.number_of_nodes() {
             return None;
         }
         self.edge_range(s).find(|&edge| self.target(edge) == t)
     }
 
     fn find_edge_unchecked(&self, s: NodeID, t: NodeID) -> EdgeID {
-        if s > self.number_of_nodes() {
+        if s >= self.number_of_nodes() {
             return EdgeID::MAX;
         }
         for edge in self.edge_range(s) {
